@@ -441,6 +441,10 @@ func (res *Resource) Purge(keepExtra int) { //nolint:gocognit
 		keepExtra = 2
 	}
 
+	// Sort versions newest first: versions may have been added since the last
+	// selection, and everything beyond the boundary is treated as old.
+	sort.Sort(res)
+
 	// Search for purge boundary.
 	var purgeBoundary int
 	var skippedActiveVersion bool
